@@ -309,7 +309,7 @@ let dump_loaded (e : env) (root : etree) (st : pstate) : String.t * int =
     (List.rev !order);
   (Buffer.contents b, !ne)
 
-(* load_buffer_internal (since fix 9d6ce2a): every Autosar path must be unique in the new data -> OverlappingDataError
+(* load_buffer_internal (since fix b692965): every Autosar path must be unique in the new data -> OverlappingDataError
    (the model is fresh, so there is no existing identifiable to compare with) *)
 let overlap (_root : etree) (st : pstate) : bool =
   let seen : (String.t, unit) Hashtbl.t = Hashtbl.create 16 in
